@@ -364,3 +364,9 @@ Example algebra_example :
   bibtex_len (s2l "a{\'e}{x}y") = Ok 4 /\
   bibtex_first_letter (s2l "12{\TeX} markup") = Ok (s2l "{\TeX}") /\ bibtex_first_letter (s2l "{1}{b}c") = Ok (s2l "b").
 Proof. vm_compute. auto 8. Qed.
+(* why the case-change laws exclude strings ending inside a never-closed special character:
+   there change_case is not even idempotent (each pass appends the scanner's closing brace) *)
+Example change_case_not_idem_example :
+  ends_in_special (s2l "{\{") = true /\
+  change_case (s2l "{\{") 0 = Ok (s2l "{\{}") /\ change_case (s2l "{\{}") 0 = Ok (s2l "{\{}}").
+Proof. vm_compute. auto. Qed.
